@@ -34,7 +34,7 @@ from vncdotool import rfb, client as vclient  # noqa: E402
 rfb.log.msg = lambda *a, **k: None  # type: ignore
 
 
-class Spin(Exception):
+class Spin(BaseException):
     """The implementation exceeded its call budget (a spin is an observation)."""
 
 
